@@ -194,7 +194,7 @@ def check_c06(den, v):
             ii = i["pins"][pn.index("i")]
             if i["ref"] != "%s_%d" % (ASSIGN_LIB, len(o)) or len(o) != len(ii):
                 bad("assign.width-name", "%s width %d" % (i["ref"], len(o)))
-            ga.append([len(o), sorted((_t(a), _t(b)) for a, b in zip(o, ii))])
+            ga.append([len(o), sorted(((_t(a), _t(b)) for a, b in zip(o, ii)), key=repr)])
         if sorted(ga, key=repr) != sorted(E["assigns"], key=repr):
             bad("assign", "%s: %s expected %s" % (name, sorted(ga, key=repr), sorted(E["assigns"], key=repr)))
         # no pin of the definition's wires beyond the expected ones: count endpoints per cable bit
